@@ -14,11 +14,9 @@
 (*             environment is the one observed in the pre-state.            *)
 (*   STRICT_.. strict lane: the observed post-state differs from            *)
 (*             Apply(pre, env, event, args) of spec/Fees.tla (the model of  *)
-(*             the CURRENT tree: DEVIATIONS = {}).  The model with the      *)
-(*             proposed fix of lead L27 ("ACC") is accepted as well, so the *)
-(*             lane stays silent once that fix lands.  A step that matches  *)
-(*             only a named variant is reported as DEV_L11 / DEV_ACC        *)
-(*             (information only).                                          *)
+(*             the CURRENT tree: DEVIATIONS = {}).  A step that does not    *)
+(*             match it but matches a named OLD behaviour is additionally   *)
+(*             reported as DEV_L11 / DEV_L27 (information only).            *)
 (*   C11_Halt  property lane of C11: a block phase (BeginBlock / EndBlock)  *)
 (*             panicked on the real app = the chain halts.                  *)
 (***************************************************************************)
@@ -69,14 +67,13 @@ StepTags(pre, post, e, ev, a, ok) ==
 
 StrictTags(pre, post, e, ev, a, panic) ==
   LET rc == ApplyD(t_DEV, pre, e, ev, a)            \* the current tree
-      ra == ApplyD({"ACC"}, pre, e, ev, a)         \* with the fix proposed for L27
+      r7 == ApplyD({"L27"}, pre, e, ev, a)         \* the defect fixed in 9ad8de4
       rl == ApplyD({"L11"}, pre, e, ev, a)         \* the defect fixed in 311e836
       mc == SameSt(rc.st, post)
-      ma == SameSt(ra.st, post)
-      ml == SameSt(rl.st, post)
-  IN IF panic THEN T(rc.panic, "STRICT_panic_" \o ev)
-     ELSE T(mc \/ ma, "STRICT_state_" \o ev) \cup T(~rc.panic \/ ~ra.panic, "STRICT_panic_" \o ev) \cup
-          (IF ml /\ ~mc THEN {"DEV_L11"} ELSE {}) \cup (IF ma /\ ~mc THEN {"DEV_ACC"} ELSE {})
+  IN IF panic THEN T(rc.panic, "STRICT_panic_" \o ev) \cup (IF r7.panic /\ ~rc.panic THEN {"DEV_L27"} ELSE {})
+     ELSE T(mc, "STRICT_state_" \o ev) \cup T(~rc.panic, "STRICT_panic_" \o ev) \cup
+          (IF SameSt(rl.st, post) /\ ~mc THEN {"DEV_L11"} ELSE {}) \cup
+          (IF SameSt(r7.st, post) /\ ~r7.panic /\ ~mc THEN {"DEV_L27"} ELSE {})
 
 HaltTags(ev, panic) == IF panic /\ ev \in {"BeginBlock", "EndBlock"} THEN {"C11_Halt"} ELSE {}
 
